@@ -36,7 +36,8 @@ def build_model(F_):
     m.vec_ops = {"subtyping::subtype::sub_vec_union": "union", "subtyping::subtype::sub_vec_intersect": "intersect",
                  "subtyping::subtype::sub_vec_diff": "diff"}
     m.tag_enum_prefix = "subtyping::subtype::SubTypeTag::"
-    m.cmp_fns = {"subtyping::bdd::atom_cmp"}
+    # comparison wrappers, by role: functions of the diagram module that answer an Ordering
+    m.cmp_fns = {g for g, f in F_.fns.items() if (f.file or "").endswith("subtyping/bdd.rs") and (f.output or "").endswith("cmp::Ordering")} | {"subtyping::bdd::atom_cmp"}
     m.hir = F_.hir
     return m
 
@@ -172,6 +173,10 @@ def run(cx, rep):
     # ---------------------------------------------------------------- C06.4
     rep.rule("C06.4", "DNF conversion: push/pop pairing, clause emission, folding back")
     check_dnf(cx, rep, F_)
+
+    # ---------------------------------------------------------------- C06.5
+    rep.rule("C06.5", "the pairwise merge of two tag-sorted tables filters every entry by its own tag")
+    merge_filter_rule(cx, rep, F_, "C06.5")
 
     rep.extra["paths_interpreted"] = total
     rep.analysed = {"functions_interpreted": 4 + 2 + len(ctors) + 4 + 3, "return_paths": total}
@@ -328,28 +333,38 @@ def semtype_op_model(tree, op, hir=None):
     arms = {}
     folds_true = False
     bits_f = []
+    let_line = {}
+    zero_tested = []
+    ctor_first_args = []
     for n in walk(body):
+        # every let-bound bit set is interpreted and bound under its own name (the locals are located by ROLE below:
+        # the one compared with 0 / handed to the pair iterator is `some`, the one the result is built from is `all`)
         if n["k"] == "LetStmt" and n["pat"]["k"] == "P.Binding" and n.get("init") is not None:
             nm = n["pat"]["name"]
-            if nm == "t1" and n["init"]["k"] == "Path" and n["init"].get("name") == "self":
+            if n["init"]["k"] == "Path" and n["init"].get("name") == "self":
                 continue
-            if nm in ("all", "some"):
-                f = bit_formula(n["init"], dict(env, t1=None))
-                env[nm] = f
-                if nm == "all":
-                    all_f = f
-                    line_all = n["line"]
-                else:
-                    some_f = f
-        if n["k"] == "AssignOp" and n["l"]["k"] == "Path" and n["l"].get("name") == "some" and n["op"] in ("BitAnd", "BitAndAssign"):
-            some_f = AND(some_f, bit_formula(n["r"], env))
-            env["some"] = some_f
-        if n["k"] == "AssignOp" and n["l"]["k"] == "Path" and n["l"].get("name") == "all" and n["op"] in ("BitOr", "BitOrAssign"):
+            if (n["pat"].get("ty") or n["init"].get("ty") or "").replace("&", "").strip() in ("u32", "subtyping::subtype::BasicTypeBitSet", "BasicTypeBitSet"):
+                try:
+                    env[nm] = bit_formula(n["init"], dict(env, t1=None))
+                    let_line[nm] = n["line"]
+                except Uninterpretable:
+                    pass
+        if n["k"] == "AssignOp" and n["l"]["k"] == "Path" and n["l"].get("name") in env and n["op"] in ("BitAnd", "BitAndAssign"):
+            env[n["l"]["name"]] = AND(env[n["l"]["name"]], bit_formula(n["r"], env))
+        if n["k"] == "AssignOp" and n["l"]["k"] == "Path" and n["l"].get("name") in env and n["op"] in ("BitOr", "BitOrAssign"):
             folds_true = True
+        if n["k"] == "Binary" and n["op"] in ("Eq", "Ne"):
+            for a_, b_ in ((n["l"], n["r"]), (n["r"], n["l"])):
+                if b_["k"] == "Lit" and str(b_.get("v")) == "0" and a_["k"] == "Path" and a_.get("name") in env:
+                    zero_tested.append(a_["name"])
+        if n["k"] == "Call" and (n.get("ty") or "").endswith("ComplexSemType") and len(n.get("args") or []) == 2 and (n["args"][0].get("ty") or "").replace("&", "").strip() in ("u32", "subtyping::subtype::BasicTypeBitSet", "BasicTypeBitSet"):
+            a0 = n["args"][0]
+            if a0["k"] == "Path" and a0.get("name") in env:
+                ctor_first_args.append(a0["name"])
         # the same fold done by a private helper that receives `&mut all`
         if n["k"] == "Call" and hir is not None and n.get("callee") in hir:
             for ai, a in enumerate(n["args"]):
-                if a["k"] == "AddrOf" and a.get("mut") and a["e"]["k"] == "Path" and a["e"].get("name") == "all":
+                if a["k"] == "AddrOf" and a.get("mut") and a["e"]["k"] == "Path" and a["e"].get("name") in env:
                     callee = hir[n["callee"]]
                     if ai < len(callee["params"]) and callee["params"][ai]["k"] == "P.Binding":
                         plid = callee["params"][ai].get("lid")
@@ -395,6 +410,13 @@ def semtype_op_model(tree, op, hir=None):
                         ks.append("_")
                         names.append(None)
                 arms[tuple(ks)] = classify_pair_arm(a["body"], names)
+    if ctor_first_args:
+        all_f = env[ctor_first_args[0]]
+        line_all = let_line.get(ctor_first_args[0])
+    if zero_tested:
+        some_f = env[zero_tested[0]]
+    elif bits_f:
+        some_f = bits_f[0]
     if all_f is None or some_f is None:
         raise Uninterpretable("all/some definitions not found", body.get("line"))
     # rename: self is t1
@@ -522,3 +544,74 @@ def linear_events(F_, f, body, role, fld):
                 visit(v)
     visit(body)
     return out
+
+
+# ---------------------------------------------------------------------------
+# C06.5
+
+def merge_filter_rule(cx, rep, F_, rid):
+    """union / intersect / diff walk the two operands' tag-sorted `subtype_data` tables with one merging iterator that
+    emits (left entry?, right entry?) per tag and skips the tags the caller masked out.  The mask must be applied to
+    the tag of the entry that is emitted: testing the OTHER operand's pending tag keeps or drops an entry according to
+    an unrelated tag, so e.g. `("a"|"b") \\ (1|"a")` gains every number.  Decided on every `Iterator::next` of the
+    engine whose item is a pair of optional entries: for every `if <test>(.., E) { return Some((..V..)) }` the
+    receiver fields (`self.t1`, `self.i2`, ...) that E is computed from - locals resolved through their `let`s - are
+    among those the emitted value V is computed from."""
+    n = 0
+    for g in sorted(F_.hir):
+        f = F_.fns.get(g)
+        if f is None or "/src/subtyping/" not in (f.file or "") or not g.endswith("::next") or " as std::iter::Iterator>" not in g:
+            continue
+        tree = F_.hir[g]
+        body = tree["body"]
+        lets = {}
+        for x in walk(body):
+            if x["k"] == "LetStmt" and x.get("init") is not None and x["pat"].get("k") == "P.Binding":
+                lets.setdefault(x["pat"]["lid"], []).append(x["init"])
+        def roots(e, depth=0, seen=None):
+            seen = seen if seen is not None else set()
+            out = set()
+            for y in walk(e):
+                if y["k"] == "Field" and (y.get("adt") or "").split("<")[0] and any(z["k"] == "Path" and z.get("name") == "self" for z in walk(y)):
+                    # only the outermost receiver field counts (self.t1.subtype_data -> t1)
+                    inner = [z for z in walk(y) if z is not y and z["k"] == "Field"]
+                    if not inner:
+                        out.add(y["name"])
+                elif y["k"] == "Path" and y.get("res") == "local" and y.get("lid") in lets and y["lid"] not in seen and depth < 6:
+                    seen.add(y["lid"])
+                    for init in lets[y["lid"]]:
+                        out |= roots(init, depth + 1, seen)
+            return out
+        for x in walk(body):
+            if x["k"] != "If":
+                continue
+            cond = x.get("cond") or next((v for k_, v in x.items() if isinstance(v, dict) and v.get("ty") == "bool"), None)
+            if cond is None:
+                continue
+            tests = [c for c in walk(cond) if c["k"] in ("MethodCall", "Call") and c.get("ty") == "bool" and (c.get("callee_local") or (c.get("callee") or "").startswith(("subtyping::", "<subtyping::")))]
+            if not tests:
+                continue
+            then = x.get("then") or next((v for k_, v in x.items() if isinstance(v, dict) and v.get("k") == "BlockExpr"), None)
+            rets = [r for r in walk(then)] if then else []
+            rets = [r for r in rets if r["k"] == "Ret"]
+            if not rets:
+                continue
+            e_roots = set()
+            for c in tests:
+                for a in c["args"]:
+                    if not (a["k"] == "Path" and a.get("name") == "self"):
+                        e_roots |= roots(a)
+            if not e_roots:
+                continue
+            for r in rets:
+                v_roots = roots(r)
+                n += 1
+                # compare operand sides: a field name's trailing digit / side marker pairs t1 with i1, t2 with i2
+                def side(names):
+                    return {re.sub(r"^\D+", "", nm) or nm for nm in names}
+                ok = side(e_roots) <= side(v_roots)
+                rep.ob(rid, "%s/line-shape-%d" % (short(g), n), ok,
+                       "%s: the entry returned here is computed from self.{%s} but the mask test that admits it looks at self.{%s}: the merge keeps or drops an entry of one operand according to the pending tag of the other, so union / intersection / difference of types whose tag sets differ are wrong" % (
+                           g, ", ".join(sorted(v_roots)), ", ".join(sorted(e_roots))),
+                       "%s:%s" % (f.file, x["line"]), sample={"fn": g, "test_reads": sorted(e_roots), "emitted_reads": sorted(v_roots)})
+    rep.floor(rid, "masked emissions of the pairwise merge", n, 3)
